@@ -168,6 +168,10 @@ class Checker:
 
     def add(self, clause, ok, detail="", pt=None, t=0.0, backend="field-nf", status=None, extra=None, tags=None):
         st = status or (PROVED if ok else FAILED)
+        if st == FAILED and self.ctx.uncertain:
+            # the path rests on a branch whose feasibility the solver could not confirm: a failure here is not a verdict
+            st = "undecided"
+            detail = "[path feasibility not confirmed by the solver] " + str(detail)
         wit = None
         if st != PROVED:
             if pt is None:
